@@ -43,6 +43,51 @@ static void classify(Ctx &c, const std::vector<Node> &t, size_t depth, bool &lon
   }
 }
 
+// Second route: the element parsers driven on a path with binary separators (MPT_PATHFLAG(SepBinary)), elements stored with
+// mpt_node_append - what examples/core/parse.c does, written like the loop of mpt_parse_config. Names are length-prefixed on
+// this path, so a name may contain the '.' that the text path of mpt_parse_config / mpt_parse_node refuses.
+static void parse_binary_path(Ctx &c, const Fmt &f, Flags fl, const std::string &doc, std::vector<Node> &got, const char *which) {
+  CObj<parser_format> pf;
+  int family = mpt_parse_format(pf, f.cstr());
+  input_parser_t next = mpt_parse_next_fcn(family);
+  VP_CHECK(c, next, "harness", "no element parser for the family");
+  Source src(doc);
+  CObj<parser_context> pc;
+  src.bind(pc);
+  pc->name.sect = fl.sect;
+  pc->name.opt = fl.opt;
+  pc->prev = (uint8_t)parser_context::Section;
+  CObj<path> pa;
+  pa->sep = '.';
+  pa->flags = path::SepBinary;
+  struct Fini { path *p; ~Fini() { mpt_path_fini(p); } } fini{pa.get()};
+  Root root;
+  node *curr = root.get();
+  struct iovec vec = {0, 0};
+  CObj<value> val;
+  val->_addr = &vec;
+  val->_type = vec_char_type();
+  int ret;
+  size_t elements = 0;
+  while ((ret = next(pf.get(), pc, pa)) > 0) {
+    vec.iov_base = (char *)(pa->base + pa->off + pa->len);
+    vec.iov_len = pc->valid;
+    node *n = mpt_node_append(curr, pa, (ret & parser_context::Data) ? val.get() : 0, pc->prev, ret);
+    if (!n) { ret = -0x80; break; }
+    curr = n;
+    ++elements;
+    ret = (ret & parser_context::SectEnd) ? mpt_path_del(pa) : mpt_path_invalidate(pa);
+    if (ret < 0) { ret = -0x10; break; }
+    pc->prev = pc->curr;
+    pc->curr = 0;
+    pc->valid = 0;
+  }
+  c.logf("rendering %s on a binary path: %d after %zu elements, line %zu", which, ret, elements, (size_t)pc->src.line);
+  if (ret == -0x80) c.fail("binary-path-store-refused", "rendering %s, binary path: mpt_node_append refused element %zu (line %zu of %s)", which, elements + 1, (size_t)pc->src.line, brief(doc, 200).c_str());
+  VP_CHECK(c, ret >= 0, "binary-path-refused", "rendering %s, binary path: %d at line %zu after %zu elements, parser state %x, text: %s", which, ret, (size_t)pc->src.line, elements, pc->curr, brief(doc, 300).c_str());
+  read_list(root.get()->children, got);
+}
+
 static bool has_dot_name(const std::vector<Node> &t) {
   for (auto &n : t) if (n.name.find('.') != std::string::npos || has_dot_name(n.kids)) return true;
   return false;
@@ -71,8 +116,12 @@ static void run(Ctx &c) {
   else if (c.exclude("C09-value-length-16bit")) { lim.max_value = 65535; }
   std::vector<uint8_t> da = deco_bytes(c), db = deco_bytes(c);  // drawn ahead of the tree, which uses up the rest
   TreeGen g(c, f, fl, lim);
+  // a third of the cases (chosen by the sizes of the decoration blocks: no draw) may write '.' into names although the finding
+  // about the text path is open; a tree that has such a name is parsed on the binary path only
+  g.dots = (da.size() / 48 + db.size() / 48) % 3 == 0;
   std::vector<Node> tree = g.tree();
   make_expressible(tree, f);
+  bool text_route = !has_dot_name(tree) || !c.exclude("C09-name-with-path-separator");
 
   c.logf("%s", show(f).c_str());
   c.logf("%s", show(fl).c_str());
@@ -91,14 +140,31 @@ static void run(Ctx &c) {
   c.logf("rendering B: %s", brief(b, 3000).c_str());
 
   std::vector<Node> ga, gb;
-  parse_doc(c, f, fl, a, ga, "A");
-  std::string d = diff(tree, ga);
-  VP_CHECK(c, d.empty(), "tree-mismatch", "rendering A parsed into a different tree: %s", d.c_str());
-  parse_doc(c, f, fl, b, gb, "B");
-  d = diff(tree, gb);
-  VP_CHECK(c, d.empty(), "tree-mismatch", "rendering B parsed into a different tree: %s", d.c_str());
-  d = diff(ga, gb);
-  VP_CHECK(c, d.empty(), "pair-mismatch", "renderings A and B of the same tree parse differently: %s", d.c_str());
+  std::string d;
+  if (text_route) {
+    parse_doc(c, f, fl, a, ga, "A");
+    d = diff(tree, ga);
+    VP_CHECK(c, d.empty(), "tree-mismatch", "rendering A parsed into a different tree: %s", d.c_str());
+    parse_doc(c, f, fl, b, gb, "B");
+    d = diff(tree, gb);
+    VP_CHECK(c, d.empty(), "tree-mismatch", "rendering B parsed into a different tree: %s", d.c_str());
+    d = diff(ga, gb);
+    VP_CHECK(c, d.empty(), "pair-mismatch", "renderings A and B of the same tree parse differently: %s", d.c_str());
+  } else c.label("route:binary-path-only");
+  // binary path route: always when the text route is closed, otherwise for one rendering of texts of moderate size
+  if (!text_route || a.size() < 4000) {
+    std::vector<Node> ba;
+    parse_binary_path(c, f, fl, a, ba, "A");
+    d = diff(tree, ba);
+    VP_CHECK(c, d.empty(), "binary-path-mismatch", "rendering A parsed on a binary path into a different tree: %s", d.c_str());
+    c.label("route:binary-path");
+  }
+  if (!text_route) {
+    std::vector<Node> bb;
+    parse_binary_path(c, f, fl, b, bb, "B");
+    d = diff(tree, bb);
+    VP_CHECK(c, d.empty(), "binary-path-mismatch", "rendering B parsed on a binary path into a different tree: %s", d.c_str());
+  }
 
   // measurement
   char lab[40];
